@@ -15,9 +15,10 @@ import sympy
 
 from engine.algebra import LocalDefs
 from engine.bounds import Bounds
+from engine.canon import roles_for
 from engine.cfg import CFG, relations
 from engine.extract import Request
-from engine.loops import describe
+from engine.loops import describe, name_induction_variables
 from engine.tree import key
 
 D = "src/recon_buildblock/"
@@ -34,6 +35,28 @@ def requests():
     ]
 
 
+def _chain(n):
+    """(root node, [index nodes]) of a pure subscript chain x[i][j][k]"""
+    n = n.strip()
+    idx = []
+    while True:
+        if n.k == "CXXOperatorCallExpr" and n.op == "[]" and len(n.c) == 2:
+            idx.insert(0, n.c[1].strip())
+            n = n.c[0].strip()
+        elif n.k == "ArraySubscriptExpr":
+            idx.insert(0, n.c[1].strip())
+            n = n.c[0].strip()
+        else:
+            return n, idx
+
+
+def _factors(n):
+    n = n.strip()
+    if (n.k == "BinaryOperator" or n.k == "CXXOperatorCallExpr") and n.op == "*" and len(n.c) == 2:
+        return _factors(n.c[0]) + _factors(n.c[1])
+    return [n]
+
+
 def rule_a(ctx, fns):
     fw = [f for f in fns if f.short == "forward_project" and f.params and "Bin &" in f.params[0]["t"] and "RelatedBins" not in f.sig and f.cfg_raw]
     bk = [f for f in fns if f.short == "back_project" and len(f.params) == 2 and "const stir::Bin" in f.params[1]["t"].replace("const Bin", "const stir::Bin") and f.cfg_raw]
@@ -43,6 +66,12 @@ def rule_a(ctx, fns):
     out = {}
     for f, role in ((fw[0], "forward"), (bk[0], "back")):
         cfg = CFG(f)
+        defs = LocalDefs(f)
+        sub = {d: defs.single_def(d) for d in defs.decl}
+        dens = [p for p in f.params if "DiscretisedDensity" in p["t"]][0]
+        binp = [p for p in f.params if "Bin" in p["t"] and "RelatedBins" not in p["t"]][0]
+        roles = roles_for(f, {dens["d"]: "$image", binp["d"]: "$bin"}, defs)
+        K = lambda x: key(x, roles, sub)
         acc = [m for m in f.walk() if m.k in ("CompoundAssignOperator", "CXXOperatorCallExpr") and m.op == "+="]
         ok = len(acc) == 1
         det = "%d accumulations" % len(acc)
@@ -50,21 +79,41 @@ def rule_a(ctx, fns):
         if ok:
             a = acc[0]
             rels = relations(cfg.facts_at(a))
-            dens = [p for p in f.params if "DiscretisedDensity" in p["t"]][0]
             dk = "v%d" % dens["d"]
-            guard = any(x.endswith("[1]") and op == ">=" and b == dk + ".get_min_index()" for x, op, b in rels) and any(x.endswith("[1]") and op == "<=" and b == dk + ".get_max_index()" for x, op, b in rels)
-            rhs = key(a.c[1].strip(), True)
-            lhs = key(a.c[0].strip(), True)
-            uses_value = "get_value()" in rhs
-            elem = re.search(r"%s\[coords\[1\]\]\[coords\[2\]\]\[coords\[3\]\]" % dens["n"], lhs + " " + rhs) is not None
-            info = dict(guard=guard, uses_value=uses_value, elem=elem, lhs=lhs, rhs=rhs)
+            lhs, rhs = a.c[0].strip(), a.c[1].strip()
+            # the voxel: image[c[1]][c[2]][c[3]] with one coordinate object c, which every definition takes from E.get_coords()
+            vox = [m for m in a.walk() if m.k in ("CXXOperatorCallExpr", "ArraySubscriptExpr") and key(_chain(m)[0]) == dk and len(_chain(m)[1]) == 3]
+            elem = False
+            guard = False
+            uses_value = False
+            side = None
+            if len(vox) >= 1:
+                v = vox[0]
+                idx = _chain(v)[1]
+                cs = [_chain(i) for i in idx]
+                croots = {key(c[0]) for c in cs}
+                if len(croots) == 1 and [key(c[1][0]) if len(c[1]) == 1 else None for c in cs] == ["1", "2", "3"]:
+                    cd = cs[0][0].get("d") if cs[0][0].k == "DeclRefExpr" else None
+                    cdefs = [key(x.strip()) for x in defs.all_defs(cd)] if cd is not None else []
+                    cdefs = [x for x in cdefs if not x.endswith("BasicCoordinate()")]  # default construction before the loop
+                    srcs = {x[: -len(".get_coords()")] for x in cdefs if x.endswith(".get_coords()")}
+                    if len(srcs) == 1 and len(srcs) == len(set(cdefs)):
+                        e = srcs.pop()
+                        elem = True
+                        ck = key(cs[0][0])
+                        guard = (ck + "[1]", ">=", dk + ".get_min_index()") in rels and (ck + "[1]", "<=", dk + ".get_max_index()") in rels
+                        fs = [key(x) for x in _factors(rhs)]
+                        uses_value = (e + ".get_value()") in fs
+                side = "lhs" if key(lhs) == key(v) else "rhs"
+            info = dict(guard=guard, uses_value=uses_value, elem=elem, lhs=K(lhs), rhs=K(rhs), side=side, factors=sorted(K(x) for x in _factors(rhs)))
             ok = guard and uses_value and elem
-            det = "%s += %s under plane guard=%s" % (lhs[:50], rhs[:70], guard)
+            det = "%s += %s under plane guard=%s" % (K(lhs)[:50], K(rhs)[:90], guard)
         ctx.ob("C04.a-one-row-two-directions", f.qn + "(" + f.sig[:40] + ")", role, ok, f.where(), det)
         out[role] = info
     if out.get("forward") and out.get("back"):
         fwd, back = out["forward"], out["back"]
-        ok = "density[" in fwd["rhs"] and "density[" in back["lhs"] and fwd["lhs"] == "single" and ("single" in back["rhs"] or "data" in back["rhs"])
+        # forward: bin += image[c] * value ; back: image[c] += value * (the bin's value)
+        ok = fwd["side"] == "rhs" and fwd["lhs"] == "$bin" and len(fwd["factors"]) == 2 and back["side"] == "lhs" and len(back["factors"]) == 2 and "$bin.get_bin_value()" in back["factors"]
         ctx.ob("C04.a-one-row-two-directions", "stir::ProjMatrixElemsForOneBin", "dual", ok, fw[0].where(), "forward: bin += image[c]*value ; back: image[c] += value*bin" if ok else "the two directions do not exchange the roles of bin and voxel: %s / %s" % (fwd, back))
 
 
@@ -74,6 +123,9 @@ MATRIX_CLASSES = ("ProjMatrixByBin", "DataSymmetriesForBins", "SymmetryOperation
 def skeleton(f):
     defs = LocalDefs(f)
     sub = defs.binding_map()
+    # role names: parameters by type and position, loop variables by the range they run over, other non-inlined locals by type
+    roles = name_induction_variables(f, roles_for(f, None, defs))
+    roles = {d: (r if r.startswith(("$P", "$for")) else "$<%s>" % r[3:].rsplit("#", 1)[0].rstrip(">")) for d, r in roles.items()}
     calls = []
     for c in f.walk():
         if c.k == "CXXMemberCallExpr" and c.callee and any(("::" + k + "::") in c.callee or c.callee.startswith("stir::" + k + "::") for k in MATRIX_CLASSES):
@@ -92,9 +144,9 @@ def skeleton(f):
                     b = sub[b.get("d")].strip()
                 if b.k in ("CXXConstructExpr", "CXXTemporaryObjectExpr") and (b.callee or "") == "stir::Bin::Bin" and len(b.c) >= 5:
                     # a bin is identified by its five index coordinates; its value is the projector's operand
-                    args.append("Bin(" + ",".join(key(x, "type", sub) for x in b.c[:5]) + ")")
+                    args.append("Bin(" + ",".join(key(x, roles, sub) for x in b.c[:5]) + ")")
                 else:
-                    args.append(key(a, "type", sub))
+                    args.append(key(a, roles, sub))
             args = [x.replace("const_iterator", "iterator") for x in args]
             # the data operand of forward/back projection differs by construction: keep only the bin argument's shape
             if short in ("forward_project", "back_project"):
@@ -103,8 +155,9 @@ def skeleton(f):
     loops = []
     for lp in f.walk():
         if lp.k == "ForStmt":
-            d = describe(lp, names=True)
-            if d and d["var"] in ("tang_pos", "ax_pos"):
+            d = describe(lp, names=roles)
+            # the loops over the requested (tangential, axial) sub-range: bounds are integer parameters
+            if d and "$P<int>" in d["init"] and "$P<int>" in d["upper"]:
                 loops.append((d["var"], d["init"], d["upper"], d["step"]))
     return calls, loops
 
@@ -126,12 +179,16 @@ def rule_b(ctx, ff, bf):
     ctx.ob("C04.b-matched-skeletons", "ForwardProjectorByBinUsingProjMatrixByBin<->BackProjectorByBinUsingProjMatrixByBin", "loops", fl == bl and bool(fl), ff.where(), "identical (tangential, axial) loops: %s" % fl[:2] if fl == bl else "loops differ: %s vs %s" % (fl, bl))
 
 
+def _is_bool(p):
+    return p["t"].replace("const ", "").strip() in ("bool", "_Bool")
+
+
 def rule_c(ctx, fns):
     for f in fns:
         if f.short == "forward_project" and f.params and f.params[0]["t"] in ("ProjData &", "stir::ProjData &"):
             if not f.cfg_raw:
                 continue
-            if not any(p["n"] == "zero" for p in f.params) or not any((c.callee or "").endswith("set_related_viewgrams") for c in f.calls()):
+            if not any(_is_bool(p) for p in f.params) or not any((c.callee or "").endswith("set_related_viewgrams") for c in f.calls()):
                 # a convenience overload: it must delegate to the subset-aware implementation
                 dl = [c for c in f.calls() if (c.callee or "") == "stir::ForwardProjectorByBin::forward_project"]
                 ctx.ob("C04.c-subset-writes-own-viewgrams", f.qn + "(" + f.sig[:40] + ")", "delegates", bool(dl), f.where(), "delegates to the subset-aware forward_project" if dl else "neither writes related viewgrams nor delegates")
@@ -148,7 +205,7 @@ def rule_c(ctx, fns):
                 short = (w.callee or "").split("::")[-1]
                 if short == "fill":
                     facts = cfg.facts_at(w)
-                    z = [p for p in f.params if p["n"] == "zero"]
+                    z = [p for p in f.params if _is_bool(p)]
                     guarded = z and any(k == "v%d" % z[0]["d"] and tv is True for k, tv, _r in facts)
                     if not guarded:
                         ok = False
@@ -169,7 +226,7 @@ def rule_d(ctx, fns):
         if f.short != "back_project" or f.body is None:
             continue
         starts = [c for c in f.calls() if (c.callee or "").endswith("::start_accumulating_in_new_target")]
-        fills = [c for c in f.calls() if (c.callee or "").split("::")[-1] == "fill" and "density" in key(c, True)]
+        fills = [c for c in f.calls() if (c.callee or "").split("::")[-1] == "fill" and c.call_object() is not None and ("DiscretisedDensity" in c.call_object().type or "DiscretisedDensity" in (c.callee or ""))]
         first_is_image = f.params and "DiscretisedDensity" in f.params[0]["t"] and not f.params[0]["t"].startswith("const")
         if first_is_image:
             ok = len(starts) == 1
@@ -189,7 +246,7 @@ def case_eval(n, facts, defs):
             init = defs.single_def(n.get("d"))
             if init is not None:
                 return case_eval(init, facts, defs)
-        return sympy.Symbol(n.get("n"), integer=True)
+        return sympy.Symbol("v%d" % n.get("d"), integer=True)
     if n.k == "UnaryOperator" and n.op == "-":
         v = case_eval(n.c[0], facts, defs)
         return None if v is None else -v
@@ -266,38 +323,93 @@ def decide(c, facts, defs):
         if c.op == "==":
             if ge is False or le is False:
                 return False
+            if ge is True and le is True:
+                return True
             return None
     return None
 
 
+def _param_roots(n, defs, seen=None):
+    """parameters / non-inlinable variables an int expression depends on (through single-definition locals)"""
+    out = set()
+    seen = seen if seen is not None else set()
+    for m in n.walk():
+        if m.k == "DeclRefExpr" and m.get("dk") in ("local", "param"):
+            d = m.get("d")
+            init = defs.single_def(d) if m.get("dk") == "local" else None
+            if init is not None and d not in seen:
+                seen.add(d)
+                out |= _param_roots(init, defs, seen)
+            elif init is None:
+                out.add(d)
+        elif m.is_call() and (m.callee or "") not in ("std::max", "std::min"):
+            out.add("call")
+    return out
+
+
 def rule_e(ctx, fns):
+    """the tangential range is given by the function's last two int parameters (min, max); everything else is found by data
+    flow from them, never by the identifiers of the locals"""
     n = 0
     for f in fns:
-        vd = [m for m in f.walk() if m.k == "VarDecl" and m.get("n") == "min_abs_tangential_pos_num" and m.c]
-        if not vd:
+        ints = [p for p in f.params if p["t"].replace("const ", "").strip() == "int"]
+        if len(ints) < 4 or f.body is None:
             continue
+        mnp, mxp = ints[-2], ints[-1]
         defs = LocalDefs(f)
-        mn, mx = sympy.Symbol("min_tangential_pos_num", integer=True), sympy.Symbol("max_tangential_pos_num", integer=True)
+        tr = {mnp["d"], mxp["d"]}
+        mn, mx = sympy.Symbol("v%d" % mnp["d"], integer=True), sympy.Symbol("v%d" % mxp["d"], integer=True)
+        # loops whose start and end are functions of the requested tangential range only
+        starts = []
+        for lp in f.walk():
+            if lp.k != "ForStmt" or len(lp.c) != 4:
+                continue
+            init = lp.c[0]
+            rhs = None
+            for m in init.walk():
+                if m.k == "VarDecl" and m.c:
+                    rhs = m.c[0]
+                elif m.k == "BinaryOperator" and m.op == "=":
+                    rhs = m.c[1]
+            if rhs is None:
+                continue
+            r = _param_roots(rhs, defs)
+            if r and r <= tr:
+                starts.append((lp, rhs))
+        zero_tests = []
+        for m in f.walk():
+            if m.k == "IfStmt" and m.c:
+                c = m.c[0].strip()
+                if c.k == "BinaryOperator" and c.op == "==" and key(c.c[1].strip()) == "0":
+                    r = _param_roots(c.c[0], defs)
+                    if r and r <= tr:
+                        zero_tests.append(c.c[0])
+        if not starts:
+            continue
         cases = [
-            ("range entirely negative", {"min_tangential_pos_num": "neg", "max_tangential_pos_num": "neg"}, -mx),
-            ("range entirely positive", {"min_tangential_pos_num": "pos", "max_tangential_pos_num": "pos"}, mn),
-            ("range contains 0", {"min_tangential_pos_num": "nonpos", "max_tangential_pos_num": "nonneg"}, sympy.Integer(0)),
+            ("range entirely negative", {mn.name: "neg", mx.name: "neg"}, -mx, -mx),
+            ("range entirely positive", {mn.name: "pos", mx.name: "pos"}, mn, mn),
+            ("range contains 0", {mn.name: "nonpos", mx.name: "nonneg"}, sympy.Integer(0), sympy.Integer(1)),
         ]
         ok = True
         det = []
         undecided = []
-        for name, facts, want in cases:
-            got = case_eval(vd[0].c[0], facts, defs)
-            if got is None:
-                undecided.append(name)
-                continue
-            if sympy.expand(got - want) != 0:
-                ok = False
-                det.append("%s: loop would start at %s instead of %s" % (name, got, want))
+        for name, facts, want0, want_loop in cases:
+            for what, exprs, want in (("tangential loop", [r for _lp, r in starts], want_loop), ("tang==0 test", zero_tests, want0)):
+                for e in exprs:
+                    got = case_eval(e, facts, defs)
+                    if got is None:
+                        undecided.append("%s/%s" % (name, what))
+                        continue
+                    if sympy.expand(got - want) != 0:
+                        ok = False
+                        msg = "%s: %s uses %s instead of %s" % (name, what, str(got).replace(mn.name, "min_tang").replace(mx.name, "max_tang"), str(want).replace(mn.name, "min_tang").replace(mx.name, "max_tang"))
+                        if msg not in det:
+                            det.append(msg)
         if ok and undecided:
-            ctx.unrec(f.qn, "min_abs_tangential_pos_num = %s cannot be evaluated for: %s" % (key(vd[0].c[0], True)[:80], undecided))
+            ctx.unrec(f.qn, "start of the tangential loops cannot be evaluated for: %s" % sorted(set(undecided)))
             continue
-        ctx.ob("C04.e-tangential-subrange", f.qn, "smallest-abs-tangential-position", ok, "%s:%d" % (f.file, vd[0].line), "min |tang| of the requested range is -max / min / 0 in the three sign configurations" if ok else "; ".join(det))
+        ctx.ob("C04.e-tangential-subrange", f.qn, "smallest-abs-tangential-position", ok, f.where(), "%d tangential loops start at max(1, min |tang|) and %d special-case tests compare min |tang| with 0, where min |tang| of the requested range is -max / min / 0 in the three sign configurations" % (len(starts), len(zero_tests)) if ok else "; ".join(det))
         n += 1
     return n
 
